@@ -3001,6 +3001,11 @@ class TLSConnection(TLSRecordLayer):
                 # binder value, so `match` will be non-null
                 if ticket and self.version != ticket.protocol_version:
                     continue
+                # don't resume a session established for a different server
+                # name (same as for session ID and TLS 1.2 ticket resumption)
+                if ticket and clientHello.server_name and \
+                        clientHello.server_name != ticket.server_name:
+                    continue
                 # check if PSK can be used with selected cipher suite
                 psk_hash = match[0][2] if len(match[0]) > 2 else 'sha256'
                 if psk_hash != prf_name:
